@@ -339,9 +339,11 @@ Proof.
   - apply has_edge_In in H. destruct H as [[a b] [Hi Hsame]]. unfold mod_base_edges in Hi. apply in_app_or in Hi.
     apply same_edge_iff in Hsame. destruct Hi as [Hi|Hi].
     + exfalso. unfold module_edges, module_kept in Hi. apply relabel_edges_range in Hi. cbn in Hi.
-      assert (in_centre (md_Nc i) a) by (unfold in_centre; lia).
-      assert (in_centre (md_Nc i) b) by (unfold in_centre; lia).
-      destruct Hsame as [[-> ->]|[-> ->]]; eapply sat_centre_disjoint; eauto.
+      assert (Ha : in_centre (md_Nc i) a) by (unfold in_centre; lia).
+      assert (Hb : in_centre (md_Nc i) b) by (unfold in_centre; lia).
+      destruct Hsame as [[E1 E2]|[E1 E2]]; rewrite E1 in Hx.
+      * exact (sat_centre_disjoint _ _ _ _ Hx Ha).
+      * exact (sat_centre_disjoint _ _ _ _ Hx Hb).
     + destruct (sat_edges_from_range _ _ 0 _ _ Hs Hi) as [k1 [_ [Ha Hb]]].
       destruct Hsame as [[-> ->]|[-> ->]].
       * rewrite (sat_sat_disjoint _ _ _ _ _ Hx Ha). exact (sat_sat_disjoint _ _ _ _ _ Hb Hy).
@@ -349,7 +351,9 @@ Proof.
   - exfalso. apply existsb_exists in H. destruct H as [[n m] [Hi Hsame]].
     destruct (links_from_shape (md_Nc i) (md_Ns i) (length (m_order (md_centre i)))
                 Hc 0 _ _ n m Hs Hch Hi) as [k1 [_ [Hn Hm]]].
-    apply same_edge_iff in Hsame. destruct Hsame as [[-> ->]|[-> ->]]; eapply sat_centre_disjoint; eauto.
+    apply same_edge_iff in Hsame. destruct Hsame as [[E1 E2]|[E1 E2]].
+    + rewrite E2 in Hy. exact (sat_centre_disjoint _ _ _ _ Hy Hm).
+    + rewrite E1 in Hx. exact (sat_centre_disjoint _ _ _ _ Hx Hm).
 Qed.
 
 (* the core-link flag sits on the endpoints of the links and nowhere else *)
